@@ -28,6 +28,14 @@ from .info import ServiceInfo
 _str = str
 
 
+def _remove_from_index(index: Dict[str, List], key: str, name: str) -> None:
+    """Remove a name from an index bucket, dropping the bucket once it is empty."""
+    bucket = index[key]
+    bucket.remove(name)
+    if not bucket:
+        del index[key]
+
+
 class ServiceRegistry:
     """A registry to keep track of services.
 
@@ -105,8 +113,8 @@ class ServiceRegistry:
             if old_service_info is None:
                 continue
             assert old_service_info.server_key is not None
-            self.types[old_service_info.type.lower()].remove(info.key)
-            self.servers[old_service_info.server_key].remove(info.key)
+            _remove_from_index(self.types, old_service_info.type.lower(), info.key)
+            _remove_from_index(self.servers, old_service_info.server_key, info.key)
             del self._services[info.key]
 
         self.has_entries = bool(self._services)
